@@ -88,6 +88,10 @@ def tuple_stmt(form):
         "t_anon_outputs": (["(o, o2) <== A22()(in, in2);"], ["component h = A22();", "h.sx <== in;", "h.dy <== in2;", "o <== h.out;", "o2 <== h.aux;"]),
         "t_anon_outputs_skip": (["(_, o2) <== A22()(in, in2);", "o <== in;"],
                                 ["component h = A22();", "h.sx <== in;", "h.dy <== in2;", "o2 <== h.aux;", "o <== in;"]),
+        # the value of an anonymous call discarded as a whole: the component and its input constraints still exist
+        "t_discard_anon": (["_ <== A()(in);", "o <== in;"], ["component h = A();", "h.in <== in;", "o <== in;"]),
+        "t_discard_anon_paren": (["(_) <== A2()(in, in2);", "o <== in;"], ["component h = A2();", "h.sx <== in;", "h.dy <== in2;", "o <== in;"]),
+        "t_discard_anon_assign": (["_ <-- A()(in);", "o <== in;"], ["component h = A();", "h.in <== in;", "o <== in;"]),
         "t_length_mismatch": (["(o, o2) <== (in, in2, in);"], None),
         "t_nested": (["((o, o2), o3) <== ((in, in2), in);"], ["o <== in;", "o2 <== in2;", "o3 <== in;"]),
         "t_var_decl": (["var (v1, v2) = (1, 2);", "o <== in * v1;", "o2 <== in2 * v2;"], ["var v1 = 1;", "var v2 = 2;", "o <== in * v1;", "o2 <== in2 * v2;"]),
@@ -141,11 +145,12 @@ def render(case):
         decls = [e for e in exp if e.startswith("component h")] if any(e.startswith("component h") for e in exp) else None
         rest = [e for e in exp if not e.startswith("component h")]
         if decls:
+            callee = decls[0].split("= ", 1)[1]          # e.g. `A22();`
             if loop:
                 rest = [r.replace("h.", "h[q].") for r in rest]
-                e = wrap(where, loop, rest, ["h[q] = A22();"])
+                e = wrap(where, loop, rest, ["h[q] = " + callee])
             else:
-                e = wrap(where, loop, rest, ["component h = A22();"])
+                e = wrap(where, loop, rest, ["component h = " + callee])
         else:
             e = wrap(where, loop, rest)
         return s, e
@@ -260,8 +265,8 @@ def run(tier):
             why = "other"
             if c["loop"] and not only_e and len(only_s) == 1 and only_s[0][0] == "CS0004" and only_s[0][1].startswith("Field element arithmetic"):
                 why = "extra-CS0004-for-generated-loop-counter"
-            elif c["loop"] and c["form"] == "t_anon_outputs_skip" and len(only_e) == 1 and only_e[0][0] == "CS0018" and \
-                    all(x[0] == "CS0004" for x in only_s):
+            elif c["loop"] and c["form"] in ("t_anon_outputs_skip", "t_discard_anon", "t_discard_anon_paren", "t_discard_anon_assign") and \
+                    len(only_e) == 1 and only_e[0][0] == "CS0018" and all(x[0] == "CS0004" for x in only_s):
                 why = "skipped-output-of-anonymous-component-in-loop-not-reported-unused"
             v.violation("desugar:findings differ from those of the hand-written expansion",
                         dict(info, why=why, only_sugared=only_s, only_expansion=only_e))
